@@ -489,3 +489,13 @@ LEVEL_NOTE = (LEVEL_NOTE + " Model/TzConvert.v is no longer tied to /repo by pin
 # ---- second batch of model = code theorems (appended) ----
 TRUSTED = [t for t in TRUSTED] + ['model_is_code_from_timestamp / _instance: pendulum.from_timestamp (integer timestamp, timezone object; pendulum.datetime translated too) = from_timestamp_int, DateTime.instance (tzinfo of the native value and the tz argument None or pendulum timezone objects) = create with the native fold; _safe_timezone for foreign tzinfo kinds (zoneinfo key, utcoffset-derived fixed offset, tzname) remains hand-written + pinned']
 LEVEL_NOTE = LEVEL_NOTE + " " + 'model_is_code_from_timestamp / _instance: pendulum.from_timestamp (integer timestamp, timezone object; pendulum.datetime translated too) = from_timestamp_int, DateTime.instance (tzinfo of the native value and the tz argument None or pendulum timezone objects) = create with the native fold; _safe_timezone for foreign tzinfo kinds (zoneinfo key, utcoffset-derived fixed offset, tzname) remains hand-written + pinned' + "."
+
+
+TRUSTED = list(TRUSTED) + [
+    "tools/vlib/gens/g55_float_glue.py + coq/Model/FloatGlue.v: the float entry points of DateTime (from_timestamp(<float>), float_timestamp, subtract(seconds=<float>), the plain-timedelta "
+    "branch of _add_timedelta_ / _subtract_timedelta) translated from /repo on every run and proved equal to Model/FloatRoutes.v (model_is_code_from_timestamp_float, model_is_code_timestamp, "
+    "model_is_code_add_plain_timedelta / _sub_plain_timedelta); named primitives (trusted, tied by correspondence): datetime.utcfromtimestamp(<float>) = utcfromtimestamp_float_us + year range, "
+    "datetime.timestamp() = timestamp_float, DateTime.add(seconds=<float>) = add_seconds_float (its core helpers.add_duration is proved equal to its translation)",
+]
+LEVEL_NOTE = LEVEL_NOTE + (" Float entry points: coq/Gen/FloatGlueGen.v is translated on every run (from_timestamp under a float timestamp, float_timestamp, subtract(seconds=<float>), the plain branch of "
+                           "_add_timedelta_ / _subtract_timedelta) and Proofs/FloatGlueFacts.v proves it equal to Model/FloatRoutes.v; DateTime.add under a float `seconds` stays a named primitive.")
